@@ -10,8 +10,9 @@ Inductive case :=
 (** both routes for one schema model M: D = parsed SDL + built-ins, resolved; J = the introspection result built
     independently from M by the harness; out_* = the implementation's Schema values.  [strict] = compare on every
     type name (the unguarded property); otherwise on [vis_of M].  [guard] = the harness's claim that M satisfies
-    [model_ok] (the hypothesis of C15_routes_agree). *)
-| CRoutes (strict guard : bool) (st : jstyle) (meta : bool) (M : smodel) (D : tsdoc) (J : json) (out_sdl : schema) (out_json : res schema)
+    [model_ok] (the hypothesis of C15_routes_agree).  [order] = the order in which J lists the types of
+    [listed_types meta M] (indices; [] = the standard order). *)
+| CRoutes (strict guard : bool) (st : jstyle) (meta : bool) (order : list nat) (M : smodel) (D : tsdoc) (J : json) (out_sdl : schema) (out_json : res schema)
 (** verdicts of check_operation_document for one operation document under the two Schema values *)
 | CVerdict (label : str) (ok_sdl ok_json : bool)
 (** writer operations of SchemaTypePrinter::print_document on the two routes *)
@@ -219,16 +220,22 @@ Definition back_equiv_b (a b : schema) : bool :=
   && forallb (fun n => option_eqb stypedef_eqb (option_map (fun d => norm_typedef (strip_typedef d)) (get_type a n))
                                                (option_map norm_typedef (get_type b n))) (map fst (sc_types a)).
 
+Definition listed_in (order : list nat) (l : list mtype) : list mtype :=
+  match order with
+  | [] => l
+  | _ => flat_map (fun i => match nth_error l i with Some t => [t] | None => [] end) order
+  end.
+
 Definition agree (c : case) : bool :=
   match c with
   | CJson _ j out => res_eqb schema_eqb (json_route j) out
   | CBack sc ast sc2 => tsdoc_eqb (type_system_to_ast sc) ast && schema_eqb (ast_to_type_system ast) sc2
-  | CRoutes strict guard st meta M D J out_sdl out_json =>
+  | CRoutes strict guard st meta order M D J out_sdl out_json =>
       strict ||
       (schema_eqb (ast_to_type_system D) out_sdl && res_eqb schema_eqb (json_route J) out_json
        (* the spec-side functions describe the inputs the implementation was given, and the hypotheses of
           C15_routes_agree hold for them *)
-       && json_eqb (introspect st meta M) J && doc_equiv_b D (sdl_doc M) && parsed_positions_b D
+       && json_eqb (introspect_of st (listed_in order (listed_types meta M)) M) J && doc_equiv_b D (sdl_doc M) && parsed_positions_b D
        && Bool.eqb (model_ok M) guard)
   | CVerdict _ _ _ => true
   | CAlias _ _ _ => true
@@ -240,7 +247,7 @@ Definition holds (c : case) : bool :=
   match c with
   | CJson _ _ _ => true
   | CBack sc _ sc2 => back_equiv_b sc sc2
-  | CRoutes strict _ _ _ M _ _ out_sdl out_json =>
+  | CRoutes strict _ _ _ _ M _ _ out_sdl out_json =>
       match out_json with
       | Ok sj => schema_equiv_b (if strict then vis_all else vis_of M) sj out_sdl
       | Err _ => false
